@@ -256,7 +256,11 @@ Record routecase : Type := mk_routecase {
   rc_quiet : bool
 }.
 
-Definition rc_services (c : routecase) : list string := if rc_mdb c then [] else mcrew_services.
+(** the model runs with the reserved names read from the source of the tree
+    under test (Gen/Names.v); the oracle counts with the documented ones *)
+Definition rc_services (c : routecase) : list string := if rc_mdb c then mdb_services else mcrew_services.
+Definition rc_documented (c : routecase) : list string :=
+  if rc_mdb c then documented_mdb_services else documented_services.
 
 Definition crew_of (ids : list string) : mmap :=
   fold_left (fun acc id => mset id (mk_mrec "rec" "start" []) acc) ids [].
@@ -312,7 +316,7 @@ Definition route_ok_under (who : json -> list string) (c : routecase) : bool :=
     a whole); those cases are judged by the comparison with the model only *)
 Definition route_ok (c : routecase) : bool :=
   if all_recordable 64 (rc_root c) && is_nil (rc_broken c)
-  then route_ok_under (addressed (rc_services c) (rc_ids c)) c
+  then route_ok_under (addressed (rc_documented c) (rc_ids c)) c
   else true.
 
 Definition c14m_violations (cases : list routecase) : list nat :=
@@ -334,7 +338,7 @@ Fixpoint has_d12_target (fuel : nat) (msg : json) : bool :=
 
 Definition K_mcrew_to_not_a_machine_id (cases : list routecase) : list nat :=
   bad_indexes (fun c => negb (route_ok c) && has_d12_target 64 (rc_root c)
-                        && route_ok_under (mcrew_rule (rc_services c) (rc_ids c)) c) 0 cases.
+                        && route_ok_under (mcrew_rule (rc_documented c) (rc_ids c)) c) 0 cases.
 
 Definition c14m_nontrivial (cases : list routecase) : nat :=
   count_true (fun c => negb (is_nil (rc_reported c)) && existsb (fun l => negb (is_nil (snd l))) (rc_logs c))
